@@ -366,6 +366,9 @@ def c17(tier):
           % ((3, base, 2) if q else (4, base, 3)), N1=3 if q else 4, N2=2 if q else 3, endings=base),
         S('reuse-text-split', 'connection 1 ends inside a text message (first frame text, 4 symbolic bytes: mid UTF-8 character / mid fragment); '
           'connection 2: 3 symbolic bytes starting with a text frame', N1=4, N2=3, endings=['eof', 'error'], first1=[1]),
+        S('reuse-compressed', 'connection 1 negotiated permessage-deflate with context takeover, received one compressed message and stopped inside the next; '
+          'connection 2 negotiates compression again and receives the first message of a NEW deflate context (abstract zlib of C06)', N1=1, N2=2,
+          endings=['compressed-then-eof']),
     ]
     return run_property('C17', tier, specs, 'model_checking', 'each connect() starts from a clean slate', ENV_ASSUMPTIONS + [
         'reconnect chains longer than 2 follow by induction only if connection 2 leaves no more state than connection 1 could (stated, not proved)'],
@@ -436,4 +439,37 @@ def c18(tier):
          'lomond.session.WebsocketSession._recv'])
 
 
-PROPS = {'C18': c18, 'C15': c15, 'C16': c16, 'C17': c17, 'C19': c19, 'C10': c10, 'C07': c07, 'C08': c08, 'C09': c09, 'C13': c13, 'C03': c03, 'C02': c02, 'C05': c05, 'C01': c01, 'C04': c04, 'C14': c14}
+def c06(tier):
+    q = tier == 'quick'
+    S = lambda name, what, **P: Spec(name, 'checks.deflate', 'run_deflate', dict(P, xval_stride=P.get('xval_stride', 61)), what=what, chunk=60)
+    K = 2 if q else 3
+    specs = [
+        S('negotiation', 'extension reply built from solver variables: server/client_max_window_bits each in {absent, 8..15 as ONE symbolic digit term, quoted, padded, '
+          '7, 16, non-numeric, empty}, both no_context_takeover flags, negotiated or not; one application send: invalid parameters => Rejected and never Ready; '
+          'otherwise the reference peer applying RFC 7692 to the negotiated parameters (window!) inflates what the client wrote',
+          incoming=0, sends=1, send_in_ready=True),
+        S('send-history', '%d application sends (compressed text / compressed binary / compress=False, chosen by solver variables) on one connection; both takeover flags '
+          'symbolic; client window symbolic 8..15: the reference peer inflater (context kept across messages unless client_no_context_takeover) must restore every message' % (K + 1),
+          s_spellings=['absent'], c_spellings=['absent', 'plain'], incoming=0, sends=K + 1, send_in_ready=True, sym_negotiate=False),
+        S('recv-single', 'one incoming message: compressed text/binary, uncompressed, or damaged; 1..3 fragments with EVERY fragment boundary (solver variables) and an optional '
+          'Ping between fragments; flags and server window symbolic', s_spellings=['absent', 'plain'], c_spellings=['absent'], incoming=1, sends=0,
+          max_frags=3 if not q else 2, sym_negotiate=False),
+        S('recv-history', '%d incoming messages with context takeover across messages (server deflater keeps its window unless server_no_context_takeover), <=2 fragments, '
+          'mixed with uncompressed and damaged messages' % K, spellings=['absent'], incoming=K, sends=0, max_frags=2, cut_options='few', sym_negotiate=False),
+        S('both-directions', 'incoming messages interleaved with application sends at solver-chosen events (two contexts in use at once)',
+          spellings=['absent'], incoming=2, sends=2, max_frags=1, sym_negotiate=False, sym_flags=False, flags=(False, False), bad=False),
+        S('not-negotiated', 'compress offered but the server does not negotiate: RSV1 must never be set, RSV1 from the server is a violation', spellings=['absent'],
+          incoming=1, sends=2, send_in_ready=True, bad=False, sym_negotiate=False, negotiate=False, sym_flags=False, max_frags=1),
+    ]
+    return run_property('C06', tier, specs, 'model_checking', 'permessage-deflate used as RFC 7692 prescribes', ENV_ASSUMPTIONS + [
+        'REDUCED SCOPE: DEFLATE/INFLATE themselves are not encoded (zlib is C code with data-dependent loops); losslessness of zlib is trusted. zlib is replaced by an executable '
+        'abstract streaming codec with explicit (generation, sequence) context tags and window tags; what is decided is lomond\'s USE of the zlib API for the negotiated parameters',
+        'axioms: an inflater accepts a message iff it needs no history (seq 0) or the inflater consumed exactly the preceding messages of that deflater, and its window is not smaller',
+        'a 8-bit window is treated as 9 (zlib cannot deflate with 8; zlib-based peers inflate it)', 'payload-content effects (compressible vs not) are outside'],
+        ['lomond.compression.Deflate.__init__/from_options/get_wbits/compress/decompress/reset_*', 'lomond.extension.parse_extension',
+         'lomond.websocket.WebSocket.process_extensions/send_text/send_binary', 'lomond.session.WebsocketSession.send_compressed',
+         'lomond.stream.WebsocketStream.set_compression/feed', 'lomond.message.Message.build/decompress_frames',
+         'lomond.frame_parser.FrameParser.enable_compression/read_text', 'lomond.frame.CompressedFrame.validate_reserved_bits'])
+
+
+PROPS = {'C06': c06, 'C18': c18, 'C15': c15, 'C16': c16, 'C17': c17, 'C19': c19, 'C10': c10, 'C07': c07, 'C08': c08, 'C09': c09, 'C13': c13, 'C03': c03, 'C02': c02, 'C05': c05, 'C01': c01, 'C04': c04, 'C14': c14}
